@@ -16,6 +16,7 @@ import (
 	"time"
 
 	"github.com/honeytrap/honeytrap/config"
+	"github.com/honeytrap/honeytrap/director"
 	"github.com/honeytrap/honeytrap/event"
 	"github.com/honeytrap/honeytrap/listener"
 	"github.com/honeytrap/honeytrap/pushers"
@@ -323,4 +324,81 @@ func Str(m EventMap, k string) string {
 		return ""
 	}
 	return render(v)
+}
+
+// ---------------------------------------------------------------- director
+
+// MemDirector is the "verif-mem" director: Dial returns the proxy-side end of
+// an in-memory duplex connection and hands the backend-side end to the harness.
+type MemDirector struct {
+	ID string `toml:"id"`
+}
+
+// BackendConn is one connection a proxy service opened through the director.
+type BackendConn struct {
+	Proxy   *memconn.End // the end the proxy service talks to (MaxRead controls reply segmentation)
+	Backend *memconn.End // the harness's end
+	For     string       // remote address of the client connection it was dialled for
+	UDP     bool
+}
+
+var (
+	dirMu    sync.Mutex
+	dials    []*BackendConn
+	onDial   func(*BackendConn)
+	dialFail error
+)
+
+// OnDial installs the backend: f runs (in a new goroutine) for every dial.
+func OnDial(f func(*BackendConn)) {
+	dirMu.Lock()
+	onDial = f
+	dials = nil
+	dirMu.Unlock()
+}
+
+// ProxyMaxRead makes every later dialled proxy-side end return at most n bytes per Read.
+var ProxyMaxRead int
+
+func Dials() []*BackendConn {
+	dirMu.Lock()
+	defer dirMu.Unlock()
+	return append([]*BackendConn(nil), dials...)
+}
+
+func (d *MemDirector) Dial(conn net.Conn) (net.Conn, error) {
+	var la, ra net.Addr
+	udp := false
+	switch a := conn.LocalAddr().(type) {
+	case *net.UDPAddr:
+		udp = true
+		la, ra = &net.UDPAddr{IP: net.ParseIP("10.0.0.1"), Port: 1}, &net.UDPAddr{IP: net.ParseIP("10.8.8.8"), Port: a.Port}
+	default:
+		p := 0
+		if t, ok := a.(*net.TCPAddr); ok {
+			p = t.Port
+		}
+		la, ra = &net.TCPAddr{IP: net.ParseIP("10.0.0.1"), Port: 1}, &net.TCPAddr{IP: net.ParseIP("10.8.8.8"), Port: p}
+	}
+	proxyEnd, backendEnd := memconn.Pair(la, ra)
+	proxyEnd.MaxRead = ProxyMaxRead
+	bc := &BackendConn{Proxy: proxyEnd, Backend: backendEnd, For: conn.RemoteAddr().String(), UDP: udp}
+	dirMu.Lock()
+	dials = append(dials, bc)
+	f := onDial
+	dirMu.Unlock()
+	if f != nil {
+		go f(bc)
+	}
+	return proxyEnd, nil
+}
+
+func init() {
+	director.Register("verif-mem", func(options ...func(director.Director) error) (director.Director, error) {
+		d := &MemDirector{}
+		for _, o := range options {
+			o(d)
+		}
+		return d, nil
+	})
 }
